@@ -10,11 +10,11 @@ impl<T: CoordNum> LineString<T> {
 //@ret r
 //@spec
     ensures r == closed(self.0@),
-//@before 1 `self.0.first()`
+//@entry
     proof {
         T::ax_obeys();
         if self.0@.len() > 0 {
-            T::ax_cmp(self.0@[0].x, self.0@.last().x);
+            T::ax_order(); T::ax_cmp(self.0@[0].x, self.0@.last().x);
             T::ax_cmp(self.0@[0].y, self.0@.last().y);
         }
     }
@@ -151,8 +151,8 @@ impl<T: CoordNum> Rect<T> {
         exists|a: Coord<T>, b: Coord<T>| call_ensures(C::into, (c1,), a) && call_ensures(C::into, (c2,), b)
             && ((rmin(r).x.val() == a.x.val() && rmax(r).x.val() == b.x.val()) || (rmin(r).x.val() == b.x.val() && rmax(r).x.val() == a.x.val()))
             && ((rmin(r).y.val() == a.y.val() && rmax(r).y.val() == b.y.val()) || (rmin(r).y.val() == b.y.val() && rmax(r).y.val() == a.y.val())),
-//@before 1 `let (min_x, max_x)`
-        proof { T::ax_obeys(); T::ax_cmp(c1.x, c2.x); T::ax_cmp(c1.y, c2.y); }
+//@entry
+        proof { T::ax_obeys(); T::ax_order(); }
 //@end
 
 //@fn geo-types/src/geometry/rect.rs | impl<T: CoordNum> Rect<T> | min | id=C18.V.rect_min
@@ -171,8 +171,8 @@ impl<T: CoordNum> Rect<T> {
 //@ret r
 //@spec
     ensures r == wf_rect(*self),
-//@before 1 `self.min.x <= self.max.x`
-        proof { T::ax_obeys(); T::ax_cmp(self.min.x, self.max.x); T::ax_cmp(self.min.y, self.max.y); }
+//@entry
+        proof { T::ax_obeys(); T::ax_order(); }
 //@end
 }
 
